@@ -44,9 +44,9 @@ CHECKS = {
     },
     "C16": {
         "modules": ["PGV.Props.C16"], "audits": ["PGV/Audit/C16.lean"],
-        "streams": ["walk-rm", "walk"], "thorough_seeds": 4,
-        "assumptions": WALK_ASSUME + ["global registrations (SetCustomerValidFn) happen once at process start, before any validation"],
-        "explanation": "theorems: rule-set selection for outermost vs nested structs (no leak), effective rule = set's rule instead of the tag rule, unmentioned fields keep the tag, lookup order per-call > registered > built-in, unknown name = one clause and the loop continues; stream walk-rm: typed/unscoped/both/empty sets, tags, local and global functions",
+        "streams": ["walk-rm", "walk", "walk-gfn"], "thorough_seeds": 4,
+        "assumptions": WALK_ASSUME + ["global registrations (SetCustomerValidFn) happen at process start, before any validation (walk-gfn: in two rounds, the later registration of a name replacing the earlier one and built-in names)"],
+        "explanation": "theorems: rule-set selection for outermost vs nested structs (no leak), effective rule = set's rule instead of the tag rule, unmentioned fields keep the tag, lookup order per-call > registered > built-in, unknown name = one clause and the loop continues; stream walk-rm: typed/unscoped/both/empty sets, tags, local and global functions; stream walk-gfn: a global name registered twice and built-in names (idcard, le, phone) registered globally",
     },
     "C17": {
         "modules": ["PGV.Props.C17"], "audits": ["PGV/Audit/C17.lean"],
@@ -244,7 +244,7 @@ MANIFEST_TEXT = {
     },
     "C16": {
         "technique": "Lean 4 theorems (rule-set selection, effective rule, function resolution) + differential correspondence",
-        "text": "Theorems: the outermost struct uses its typed set if non-empty else the unscoped one; a nested struct only its own typed set (no leak, also with shared field names); a field's effective rule is the set's non-empty rule instead of the tag rule, else the tag rule under the requested tag; functions resolve per-call, then registered, then built-in; an unknown name yields one clause and the loop continues. Tie: walk-rm stream (typed/unscoped/both/empty sets, three tag names, local and global marker functions that shadow each other).",
+        "text": "Theorems: the outermost struct uses its typed set if non-empty else the unscoped one; a nested struct only its own typed set (no leak, also with shared field names); a field's effective rule is the set's non-empty rule instead of the tag rule, else the tag rule under the requested tag; functions resolve per-call, then registered, then built-in; an unknown name yields one clause and the loop continues. Tie: walk-rm stream (typed/unscoped/both/empty sets, three tag names, local and global marker functions that shadow each other) and walk-gfn (a process whose global table has a name registered twice and three built-in names replaced).",
         "note": "Trusted: Lean kernel; reflect.Type identity modelled by the type string; correspondence.",
     },
     "C17": {
